@@ -51,4 +51,17 @@ def lookupFor (cmd arg : Bytes) : Lookup :=
 def dynLookup (cmd id : Bytes) : Option (Bytes × Lookup) :=
   (dynRealmOf (cstr id)).map fun r => (r, lookupFor cmd r)
 
+/-- caseless "ends with" (what the sub-realm's expression `@<text>$`, compiled caseless, decides for a text of
+    letters, digits, '.' and '-') -/
+def endsWithCI (id suffix : Bytes) : Bool :=
+  suffix.length ≤ id.length && lowerAll (id.drop (id.length - suffix.length)) == lowerAll suffix
+
+/-- `findserver` for identifier `id` while the sub-realm created for realm text `r1` exists and its server entry is an
+    unstarted copy (the server discovered earlier gave up and was taken out):
+    an identifier of that sub-realm restarts the discovery with the sub-realm's own name; any other identifier is
+    handled like a first one. `restart` tells the two apart. -/
+def refind (cmd r1 id : Bytes) : Option (Bytes × Bool × Lookup) :=
+  if endsWithCI (cstr id) (64 :: r1) then some (r1, true, lookupFor cmd r1)
+  else (dynLookup cmd id).map fun (r, l) => (r, false, l)
+
 end Rsp.DynRealm
